@@ -124,6 +124,27 @@ Proof.
   - apply lut32_read_inside_footprint; assumption.
 Qed.
 
+(* the 32-bit helper operations of the executable semantics that Vela's softmax and ARG_MAX rewrites use *)
+Theorem clz_counts_leading_zeros :
+  forall a, 0 < a < 2 ^ 31 -> 0 <= clz32 a <= 31 /\ 2 ^ (31 - clz32 a) <= a < 2 ^ (32 - clz32 a).
+Proof. exact clz32_spec. Qed.
+
+Theorem shr_natural_rounds_to_nearest :
+  forall a b, 0 < b -> let q := shr_round 2 a b in 2 ^ b * q - 2 ^ (b - 1) <= a < 2 ^ b * q + 2 ^ (b - 1).
+Proof. exact shr_round_natural. Qed.
+
+Theorem wide_elementwise_results_saturate :
+  forall v, - 2147483648 <= sat32 4 v <= 2147483647.
+Proof. exact sat32_in_range. Qed.
+
+(* the 16-bit table that convert_argmax_to_depthwise_conv_and_max_pool builds (every entry: slope -128, base c - 1),
+   read by the 16-bit table look-up of the executable semantics, returns c - 1 minus the lower seven bits of the value:
+   the channel index, since the preceding convolution put c - 1 - index into those bits *)
+Theorem argmax_table_extracts_channel_index :
+  forall c u, 0 <= c - 1 <= 127 -> 0 <= u ->
+    lut16_interp ((-128 mod 65536) * 65536 + (c - 1)) u = c - 1 - u mod 128.
+Proof. exact lut16_interp_argmax. Qed.
+
 (* before the repair c949748 the multiplier 2^31 was kept where the reference renormalises: the TFL mode
    then differs from the reference (the witness found by trying to prove the theorem above) *)
 Theorem unrenormalised_multiplier_differs :
@@ -160,4 +181,8 @@ Print Assumptions elementwise_addsub_scaled_b_is_reference.
 Print Assumptions elementwise_mul_is_reference.
 Print Assumptions lut_lookup_inside_read_footprint.
 Print Assumptions lut32_lookup_inside_read_footprint.
+Print Assumptions clz_counts_leading_zeros.
+Print Assumptions shr_natural_rounds_to_nearest.
+Print Assumptions wide_elementwise_results_saturate.
+Print Assumptions argmax_table_extracts_channel_index.
 Print Assumptions clamp_in_range.
